@@ -5,6 +5,7 @@
 use super::dirty_lines::kverif::*;
 use super::*;
 use crate::buffer::kverif::*;
+use crate::color::Color;
 use crate::kv::*;
 use crate::tabs::kverif::{any_tabs, tabs_vec};
 use crate::{kv_cover, kv_end};
@@ -438,6 +439,27 @@ pub(crate) fn resolve(t: &Terminal, w: &Wit, s: Src, m: MSrc, post_len: usize) -
         None
     };
     Exp { cell, mark, view_before }
+}
+
+// recorder stub for Terminal::execute (used only by the Vt-level harness t_vt_none)
+pub(crate) static mut EXEC_CALLS: u32 = 0;
+impl Terminal {
+    pub(crate) fn kv_rec_execute(&mut self, fun: Function) {
+        unsafe {
+            EXEC_CALLS += 1;
+        }
+        std::mem::forget(fun);
+    }
+}
+
+pub(crate) fn e_cell(e: &Exp) -> Option<Cell> {
+    e.cell
+}
+pub(crate) fn e_mark(e: &Exp) -> Option<bool> {
+    e.mark
+}
+pub(crate) fn dirty_flag(t: &Terminal, r: usize) -> bool {
+    dl_get(&t.dirty_lines, r)
 }
 
 // the literal tags of the cell/mark assertions are chosen per family through these macros
@@ -1893,6 +1915,140 @@ pub(crate) fn t_gc(c: TCfg, drain: bool, tn: bool) {
     assert_inv(&t);
     kv_cover!(excess > 0, "something is trimmed");
     kv_cover!(excess == 0, "nothing is trimmed");
+    kv_end!();
+    forget(t);
+}
+
+// ------------------------------------------------------------------ T-base (C02) and T-sgr (C08)
+
+/// T-base: Terminal::new((cols, rows), Some(limit)) satisfies InvT and is blank
+pub(crate) fn t_base(cols: usize, rows: usize, limit: usize) {
+    let t = Terminal::new((cols, rows), Some(limit));
+    assert_inv(&t);
+    let s = snap(&t);
+    assert!(s.len == rows && s.other_len == rows && !s.alt && s.col == 0 && s.row == 0 && s.visible && !s.pending_wrap, "[C02][C19] a fresh terminal shows a blank primary screen with the cursor home");
+    assert!(s.top == 0 && s.bottom == rows - 1 && s.auto_wrap && !s.insert && !s.origin && !s.new_line && !s.app_keys, "[C19] a fresh terminal has default modes and full-screen margins");
+    let w = any_wit(rows, cols);
+    assert!(cell_at(&t, w.i, w.c) == Cell::default() && !mark_at(&t, w.i), "[C19] a fresh terminal is blank");
+    assert!(dl_get(&t.dirty_lines, any_in(0, rows - 1)), "[C15] a fresh terminal reports every row as changed");
+    assert!(b_limit(&t.buffer) == Some((limit, limit + limit / 10)) && b_limit(&t.other_buffer) == Some((0, 0)), "[C13] the primary gets the configured limit (+10% slack), the alternate screen none");
+    kv_end!();
+    forget(t);
+}
+
+fn any_sgr_op() -> SgrOp {
+    use SgrOp::*;
+    let k = any_u8();
+    assume(k < 18);
+    match k {
+        0 => Reset,
+        1 => SetBoldIntensity,
+        2 => SetFaintIntensity,
+        3 => SetItalic,
+        4 => SetUnderline,
+        5 => SetBlink,
+        6 => SetInverse,
+        7 => SetStrikethrough,
+        8 => ResetIntensity,
+        9 => ResetItalic,
+        10 => ResetUnderline,
+        11 => ResetBlink,
+        12 => ResetInverse,
+        13 => ResetStrikethrough,
+        14 => SetForegroundColor(any_color()),
+        15 => ResetForegroundColor,
+        16 => SetBackgroundColor(any_color()),
+        _ => ResetBackgroundColor,
+    }
+}
+
+/// the statement of C08 as a function pen -> pen (observed through the public accessors)
+#[derive(Clone, Copy, PartialEq)]
+struct PenView {
+    fg: Option<Color>,
+    bg: Option<Color>,
+    bold: bool,
+    faint: bool,
+    italic: bool,
+    underline: bool,
+    blink: bool,
+    inverse: bool,
+    strike: bool,
+}
+
+fn view_of(p: &Pen) -> PenView {
+    PenView {
+        fg: p.foreground(),
+        bg: p.background(),
+        bold: p.is_bold(),
+        faint: p.is_faint(),
+        italic: p.is_italic(),
+        underline: p.is_underline(),
+        blink: p.is_blink(),
+        inverse: p.is_inverse(),
+        strike: p.is_strikethrough(),
+    }
+}
+
+fn ref_apply(op: SgrOp, mut v: PenView) -> PenView {
+    use SgrOp::*;
+    match op {
+        Reset => {
+            v = PenView { fg: None, bg: None, bold: false, faint: false, italic: false, underline: false, blink: false, inverse: false, strike: false };
+        }
+        SetBoldIntensity => {
+            v.bold = true;
+            v.faint = false;
+        }
+        SetFaintIntensity => {
+            v.faint = true;
+            v.bold = false;
+        }
+        ResetIntensity => {
+            v.bold = false;
+            v.faint = false;
+        }
+        SetItalic => v.italic = true,
+        SetUnderline => v.underline = true,
+        SetBlink => v.blink = true,
+        SetInverse => v.inverse = true,
+        SetStrikethrough => v.strike = true,
+        ResetItalic => v.italic = false,
+        ResetUnderline => v.underline = false,
+        ResetBlink => v.blink = false,
+        ResetInverse => v.inverse = false,
+        ResetStrikethrough => v.strike = false,
+        SetForegroundColor(c) => v.fg = Some(c),
+        ResetForegroundColor => v.fg = None,
+        SetBackgroundColor(c) => v.bg = Some(c),
+        ResetBackgroundColor => v.bg = None,
+    }
+    v
+}
+
+/// T-sgr: execute(Sgr(ops)) with k arbitrary operations == left fold of the statement
+pub(crate) fn t_sgr(c: TCfg, k: usize) {
+    let mut t = mk_terminal(&c);
+    let pre = snap(&t);
+    let tw = tab_witness(&t);
+    let w = any_wit(pre.len, c.cols);
+    let e = resolve(&t, &w, Src::Same, MSrc::Same, pre.len);
+    let mut ops: Vec<SgrOp> = Vec::with_capacity(k);
+    let mut want = view_of(&t.pen);
+    for _ in 0..k {
+        let op = any_sgr_op();
+        want = ref_apply(op, want);
+        ops.push(op);
+    }
+    t.execute(Function::Sgr(ops));
+    assert!(view_of(&t.pen) == want, "[C08] the pen is the left-to-right fold of the SGR operations received");
+    assert!(pen_ok(&t.pen), "[C02] attribute bits stay within the five attributes");
+    let mut allow = Allow::default();
+    allow.pen = true;
+    frame(&pre, &t, &allow, &tw);
+    check_exp!(&t, &w, e, "[FR] SGR changes no cell", "[FR] SGR changes no soft-wrap mark");
+    assert_inv(&t);
+    kv_cover!(want.bold && want.italic && want.fg.is_some(), "bold italic coloured pen");
     kv_end!();
     forget(t);
 }
